@@ -380,6 +380,56 @@ pub fn child_both(args: &[String]) -> i32 {
     0
 }
 
+/// Child: a console appender built by the config-file machinery from a hand-written section.
+pub fn child_cfg(args: &[String]) -> i32 {
+    let doc = args[0].replace("\\n", "\n");
+    let value: serde_value::Value = match serde_yaml::from_str(&doc) {
+        Ok(v) => v,
+        Err(_) => return 4,
+    };
+    match log4rs::config::Deserializers::default().deserialize::<dyn log4rs::append::Append>("console", value) {
+        Ok(app) => {
+            let _ = app.append(&Record::builder().level(Level::Info).target("t").args(format_args!("from-the-config-built-appender")).build());
+            0
+        }
+        Err(e) => {
+            println!("REJECTED {:#}", e);
+            0
+        }
+    }
+}
+
+/// Hand-written console sections: optional keys omitted, or present with an explicit null.
+fn cfg_cases(rep: &mut Report) {
+    for (k, (doc, on_stderr)) in [
+        ("target: stderr\\ntty_only: ~\\nencoder: {pattern: '{m}{n}'}", true),
+        ("target: stderr\\ntty_only: null\\nencoder: {pattern: '{m}{n}'}", true),
+        ("target: stderr\\nencoder: {pattern: '{m}{n}'}", true),
+        ("tty_only: false\\ntarget: ~\\nencoder: {pattern: '{m}{n}'}", false),
+        ("tty_only: false\\nencoder: ~", false),
+        ("tty_only: true\\ntarget: stderr\\nencoder: {pattern: '{m}{n}'}", true),
+    ].iter().enumerate() {
+        rep.case_enumerated(true);
+        match crate::childproc::run_child(&["c18cfg".to_owned(), (*doc).to_owned()], &[("NO_COLOR", None), ("CLICOLOR", None), ("CLICOLOR_FORCE", None)], Duration::from_secs(60)) {
+            Err(e) => rep.inconclusive(&format!("cannot spawn console child: {}", e)),
+            Ok(o) if o.timed_out || o.status != Some(0) => rep.inconclusive("config-built console child failed"),
+            Ok(o) => {
+                rep.count("console_children", 1);
+                rep.count("config_built_console_children", 1);
+                let (out, err) = (String::from_utf8_lossy(&o.stdout).into_owned(), String::from_utf8_lossy(&o.stderr).into_owned());
+                let marker = "from-the-config-built-appender";
+                let restricted = k == 5; // tty_only: true on a pipe stays silent
+                let ok = if restricted { !out.contains(marker) && !err.contains(marker) && !out.contains("REJECTED") }
+                    else if *on_stderr { err.contains(marker) && !out.contains(marker) } else { out.contains(marker) && !err.contains(marker) };
+                if !ok {
+                    rep.violation("C18:config-built-appender:optional-key-omitted-or-null", json!({"section": doc.replace("\\n", "\n"),
+                        "stdout": out, "stderr": err}));
+                }
+            }
+        }
+    }
+}
+
 fn both_case(rep: &mut Report, idx: u64) {
     let pty_is_stdout = idx % 2 == 0;
     let stderr_first = (idx / 2) % 2 == 1;
@@ -731,6 +781,7 @@ pub fn run(rep: &mut Report) {
         for k in 0..4 {
             both_case(rep, k);
         }
+        cfg_cases(rep);
     }
     let n = if rep.tier == "thorough" { 400_000 } else { 40_000 };
     run_cases(rep, "ansi", n, ansi_patterns);
